@@ -170,7 +170,8 @@ where
     let n ← wr[2]?.bind nat?
     let arr ← (env "arrived").bind (·[1]?)
     let arrived ← if arr == "-" then pure [] else (arr.splitOn ",").mapM nat?
-    pure ([.sent s dst data (errc e) n src arrived], ps)
+    -- a write that failed without an errno behind the error was refused by the library (the kernel was not asked)
+    pure ([.sent s dst data (if e == "other" then .refused else errc e) n src arrived], ps)
   membEv (ps : PState) (cmd : List String) (out : String → Option (List String)) : Option (List Ev × PState) :=
     match cmd with
     | c :: s :: g :: rest =>
